@@ -292,3 +292,304 @@ def _tuple_classes_shape(repo):
 
 
 STATIC = [dict(name="zip-module-init", props=["C15"], run=_tuple_classes_shape)]
+
+
+# ---------------------------------------------------------------------------------------------
+# Zipper.__init__: a private copy of the inputs, one positional done-callback per input, cancel fan-out
+# ---------------------------------------------------------------------------------------------
+from pyvc.symexec import Obligation
+from pyvc.vals import Partial, Bound, Func, Closure, ArgPack, TupleV
+from .base import RecordCall, simulate_callback
+
+ZQN = "more_executors._impl.futures.zip.Zipper"
+
+
+def _zinit_loop_spec():
+    def invariant(engine, st, fr, ctx):
+        selfv = st.envs[fr.eid]["self"]
+        sid = Val.id(selfv.t)
+        lid = Val.id(st.get("fs", sid))
+        e = ctx["entry"]
+        return [("the inputs list and the counter are not changed by the registration loop",
+                 z3.And(st.get("fs", sid) == e.get("fs", sid), st.get("$len", lid) == e.get("$len", lid), st.get("$at", lid) == e.get("$at", lid),
+                        st.get("count_remaining", sid) == e.get("count_remaining", sid), st.get("out", sid) == e.get("out", sid)))]
+
+    def body_post(engine, st, fr, ctx, events):
+        from pyvc.b_ctrl import _havoc_locals
+        out_cl = []
+        x = ctx["x"]
+        items = x.items if isinstance(x, TupleV) else None
+        if items is None:
+            return [("the loop enumerates (position, input) pairs", z3.BoolVal(False))]
+        pos, fut = engine.to_val(st, items[0]), engine.to_val(st, items[1])
+        selfv = st.envs[fr.eid]["self"]
+        sid = Val.id(selfv.t)
+        outv = engine.typed(st, st.get("out", sid), INST("OutputFuture"))
+        oid = Val.id(outv.t)
+        regs = [e for e in events if e.kind == "register-cb"]
+        on_out = [e for e in regs if z3.is_true(z3.simplify(e.recv == oid))]
+        on_x = [e for e in regs if e not in on_out]
+        out_cl.append(("exactly one done-callback per input is registered, on that input", z3.And(z3.BoolVal(len(on_x) == 1), on_x[0].recv == Val.id(fut) if on_x else False)))
+        if len(on_x) != 1:
+            return out_cl
+
+        def later(s2):
+            _havoc_locals(engine, s2, fr, ["idx", "future"], ())
+            s2.put("$fstate", oid, z3.IntVal(CANCELLED_AND_NOTIFIED))
+        if len(on_out) == 1:
+            for (s3, r, evs) in simulate_callback(engine, st, fr, on_out[0].extra["cb"], outv, later):
+                canc = [e for e in evs if e.kind == "call" and e.meth == "cancel"]
+                f = z3.And(z3.BoolVal(len(canc) == 1), canc[0].recv == Val.id(fut)) if len(canc) == 1 else z3.BoolVal(False)
+                engine.all_obligations.append(Obligation("loop Zipper.__init__#0 body: cancelling the output requests cancel() of exactly this input", "LI", f,
+                                                         list(s3.pc), list(s3.decisions), None, ["C15", "C06"]))
+        else:
+            canc = [e for e in events if e.kind == "call" and e.meth == "cancel"]
+            out_cl.append(("output already done at registration: the forwarding callback ran at once (at most one cancel(), of this input)",
+                           z3.And(z3.BoolVal(len(on_out) == 0 and len(canc) <= 1), canc[0].recv == Val.id(fut) if canc else z3.BoolVal(True))))
+        # completion of this input runs handle_done(this zipper, ITS OWN POSITION, this input) once
+        def check_hd(hd, pc_state, immediate):
+            f = z3.And(z3.BoolVal(len(hd) == 1), hd[0].args[0] == selfv.t, hd[0].args[1] == pos, hd[0].args[2] == fut) if len(hd) == 1 and len(hd[0].args) == 3 else z3.BoolVal(False)
+            return f
+        if on_x[0].extra.get("immediate"):
+            hd = [e for e in events if e.kind == "repo-call" and e.meth.endswith("handle_done")]
+            out_cl.append(("input already done at registration: handle_done(this zipper, its position, this input) ran at once", check_hd(hd, st, True)))
+        else:
+            for (s3, r, evs) in simulate_callback(engine, st, fr, on_x[0].extra["cb"], items[1], lambda s2: _havoc_locals(engine, s2, fr, ["idx", "future"], ())):
+                hd = [e for e in evs if e.kind == "repo-call" and e.meth.endswith("handle_done")]
+                engine.all_obligations.append(Obligation("loop Zipper.__init__#0 body: the input's done-callback is handle_done(this zipper, the input's OWN position, this input)", "LI",
+                                                         check_hd(hd, s3, False), list(s3.pc), list(s3.decisions), None, ["C15", "C03"]))
+        return out_cl
+    return LoopSpec(invariant=invariant, body_post=body_post)
+
+
+def _cfg_zinit():
+    cfg = _cfg()
+    cfg.loops[(ZQN + ".__init__", 0)] = _zinit_loop_spec()
+    cfg.contracts[ZQN + ".handle_done"] = RecordCall()
+    cfg.stable |= {"_WeakCallback__delegate"}
+    cfg.local_types[(ZQN + ".__init__", "future")] = "future"      # proved at the assignment: every entry of the copy is one of the input futures
+    cfg.ghost_hooks.pop(("write", "count_remaining"), None)
+    cfg.region_inv.pop(("Zipper", "lock"), None)     # the invariant is ESTABLISHED here (post-condition below), nobody else can hold the lock yet
+    base_rely = cfg.after_interfere
+
+    def rely(engine, st, old, why):
+        # the zipper's own fields are written by its constructor only until a callback fires; callbacks that fire during
+        # construction go through handle_done's contract (RecordCall), whose effect on `fs` is confined to filled positions
+        lid = getattr(cfg, "owned_list", None)
+        if lid is not None:
+            for a in ("$len", "$at"):
+                oa = old[a] if a in old else st.arr(a)
+                st.assume(st.get(a, lid) == z3.Select(oa, lid))
+    cfg.after_interfere = rely
+    return cfg
+
+
+def _setup_zinit(engine, st):
+    oid = st.alloc("Zipper")
+    st.assume(cls_of(z3.IntVal(oid)) == engine.tag("Zipper"))
+    me = Z(ref(oid), INST("Zipper"))
+    fs = sym_val(engine, st, ("list", "future"), "fs")      # f_zip(*fs): the tuple of arguments, any length
+    engine.cfg.owned_list = Val.id(fs.t)
+    engine.cfg.zippers = []
+    k = fresh("k", I)
+    n = st.get("$len", Val.id(fs.t))
+    st.assume(z3.And(k >= 0, k < n))
+    q = z3.Int("i!zfs")
+    st.assume(z3.ForAll([q], engine.ty_formula(st, z3.Select(st.get("$at", Val.id(fs.t)), q), "future")))     # @ensure_futures (+ A-DUCK): every input is a future
+    return [me, fs], {}, {"me": me, "fs": fs, "k": k, "n": n, "at": st.get("$at", Val.id(fs.t))}
+
+
+def _post_zinit(engine, st, ctx, out):
+    cl = [("the constructor does not raise", "EX", not isinstance(out, Raise), ["C15", "C18"])]
+    if isinstance(out, Raise):
+        return cl
+    sid = Val.id(ctx["me"].t)
+    lst = st.get("fs", sid)
+    lid = Val.id(lst)
+    k = ctx["k"]
+    cl.append(("the zipper works on its OWN copy of the inputs, same length and order (position k arbitrary)", "PC",
+               z3.And(lid != Val.id(ctx["fs"].t), st.get("$len", lid) == ctx["n"], z3.Select(st.get("$at", lid), k) == z3.Select(ctx["at"], k)), ["C15"]))
+    cl.append(("every input is still outstanding: count_remaining = number of inputs, not decided", "PC",
+               z3.And(st.get("count_remaining", sid) == Val.intv(ctx["n"]), st.get("done", sid) == Val.boolv(z3.BoolVal(False))), ["C15", "C03"]))
+    return cl
+
+
+UNITS.append(Unit("Zipper.__init__", "futures.zip.Zipper.__init__", ["C15", "C06", "C03", "C18"], _setup_zinit, _post_zinit, cfg=_cfg_zinit, self_cls="Zipper"))
+
+
+# ---------------------------------------------------------------------------------------------
+# f_zip / f_traverse / f_sequence: thin wrappers over Zipper / f_map
+# ---------------------------------------------------------------------------------------------
+from pyvc.state import Event
+
+
+class ZipperInit(object):
+    """Call-site contract of Zipper(fs) (proved by the unit Zipper.__init__): a zipper over a copy of fs whose `out` is a fresh output future."""
+    inline = False
+
+    def apply(self, engine, st, fr, func, args, kwargs, star, starkw, node):
+        me = args[0]
+        oid = st.alloc("OutputFuture")
+        st.assume(cls_of(z3.IntVal(oid)) == engine.tag("OutputFuture"))
+        st.put("$fstate", oid, z3.IntVal(PENDING))
+        st.put("out", Val.id(me.t), ref(oid))
+        st.trace.append(Event("repo-call", meth=func.qualname, args=[me.t], extra={"raw": list(args[1:])}, ret=ref(oid)))
+        yield st, None
+
+
+def _cfg_fzip():
+    cfg = make_cfg(concurrent=False)
+    cfg.contracts[ZQN + ".__init__"] = ZipperInit()
+    cfg.contracts["more_executors._impl.futures.zip.maketuple"] = MakeTupleContract()
+    cfg.contracts["more_executors._impl.metrics.track_future"] = RecordCall(ret_fn=lambda e, s: sym_val(e, s, "future", "tracked"))
+    cfg.contracts["more_executors._impl.futures.base.f_return"] = RecordCall(ret_fn=lambda e, s: sym_val(e, s, "future", "returned"))
+    return cfg
+
+
+def _setup_fzip(engine, st):
+    a = ArgPack(fresh("fs", Val), "args")
+    return [], {}, {"star": a, "a": a, "raw": True}
+
+
+def _post_fzip(engine, st, ctx, out):
+    from pyvc.b_names import pk_len
+    zi = [e for e in st.trace if e.kind == "repo-call" and e.meth.endswith("Zipper.__init__")]
+    tr = [e for e in st.trace if e.kind == "repo-call" and e.meth.endswith(".track_future")]
+    fr_ = [e for e in st.trace if e.kind == "repo-call" and e.meth.endswith(".f_return")]
+    cl = [("f_zip does not raise", "EX", not isinstance(out, Raise), ["C15"])]
+    if isinstance(out, Raise):
+        return cl
+    n = pk_len(ctx["a"].t)
+    if zi:
+        raw = zi[0].extra["raw"]
+        okraw = len(raw) == 1 and isinstance(raw[0], ArgPack) and raw[0].t.eq(ctx["a"].t)
+        cl.append(("with inputs: ONE zipper over exactly the given futures in the given order, and its (tracked) output is returned", "PC",
+                   z3.And(z3.BoolVal(len(zi) == 1 and okraw and len(tr) == 1 and not fr_), n > 0,
+                          tr[0].args[0] == zi[0].ret if tr else False, engine.to_val(st, out) == tr[0].ret if tr else False), ["C15"]))
+    else:
+        ok = len(fr_) == 1 and not tr
+        t = fr_[0].args[0] if ok and fr_[0].args else None
+        cl.append(("without inputs: a future already resolved with the empty tuple", "PC",
+                   z3.And(z3.BoolVal(ok and t is not None), n == 0, st.get("$len", Val.id(t)) == 0 if t is not None else False,
+                          engine.to_val(st, out) == fr_[0].ret if ok else False), ["C15"]))
+    return cl
+
+
+TRAV = "more_executors._impl.futures.sequence"
+
+
+def _cfg_trav():
+    cfg = make_cfg(concurrent=False)
+    cfg.contracts["more_executors._impl.futures.zip.f_zip"] = RecordZip()
+    cfg.contracts["more_executors._impl.futures.map.f_map"] = RecordCall(ret_fn=lambda e, s: sym_val(e, s, "future", "mapped"))
+    cfg.contracts["more_executors._impl.metrics.track_future"] = RecordCall(ret_fn=lambda e, s: sym_val(e, s, "future", "tracked"))
+    cfg.contracts["more_executors._impl.common.copy_exception"] = RecordCall()
+    cfg.comp_specs = {TRAV + ".f_traverse": _trav_comp_spec}
+
+    def rely(engine, st, old, why):
+        # requires: fn does not resize / rewrite the iterable it is being mapped over (positions are then those of xs)
+        lid = getattr(cfg, "owned_list", None)
+        if lid is not None:
+            for a in ("$len", "$at"):
+                oa = old[a] if a in old else st.arr(a)
+                st.assume(st.get(a, lid) == z3.Select(oa, lid))
+    cfg.after_interfere = rely
+    return cfg
+
+
+class RecordZip(object):
+    inline = False
+
+    def apply(self, engine, st, fr, func, args, kwargs, star, starkw, node):
+        ret = sym_val(engine, st, "future", "zipped")
+        st.trace.append(Event("repo-call", meth=func.qualname, args=[engine.to_val(st, a) for a in args], extra={"star": star}, ret=ret.t))
+        yield st, ret
+
+
+def _setup_trav(engine, st):
+    fn = sym_val(engine, st, "callable", "fn")
+    st.assume(Val.is_none(st.get("$code", Val.id(fn.t))))
+    xs = sym_val(engine, st, ("list", "any"), "xs")
+    engine.cfg.owned_list = Val.id(xs.t)
+    k = fresh("k", I)
+    n = st.get("$len", Val.id(xs.t))
+    st.assume(z3.And(k >= 0, k < n))
+    return [fn, xs], {}, {"fn": fn, "xs": xs, "k": k, "n": n, "at": st.get("$at", Val.id(xs.t))}
+
+
+def _post_trav(engine, st, ctx, out):
+    zs = [e for e in st.trace if e.kind == "repo-call" and e.meth.endswith(".f_zip")]
+    ms = [e for e in st.trace if e.kind == "repo-call" and e.meth.endswith(".f_map")]
+    tr = [e for e in st.trace if e.kind == "repo-call" and e.meth.endswith(".track_future")]
+    ce = [e for e in st.trace if e.kind == "repo-call" and e.meth.endswith(".copy_exception")]
+    cl = [("f_traverse itself never raises an Exception of fn (it is delivered through the returned future)", "EX", not isinstance(out, Raise), ["C15", "C18"])]
+    if isinstance(out, Raise):
+        return cl
+    if ce:
+        cl.append(("fn raised: no zip is built; the returned future is a new one failed with the exception in flight", "PC",
+                   z3.And(z3.BoolVal(len(ce) == 1 and not zs and not ms), ce[0].args[0] == engine.to_val(st, out) if ce[0].args else False,
+                          z3.BoolVal(any(e.kind == "call" and e.exc is not None for e in st.trace))), ["C15", "C18"]))
+        return cl
+    ok = len(zs) == 1 and len(ms) == 1 and len(tr) == 1
+    cl.append(("all calls of fn succeeded: one zip of the produced futures, mapped through list, tracked, returned", "PC",
+               z3.And(z3.BoolVal(ok), ms[0].args[0] == zs[0].ret if ok else False, tr[0].args[0] == ms[0].ret if ok else False,
+                      engine.to_val(st, out) == tr[0].ret if ok else False), ["C15"]))
+    if ok:
+        star = engine.resolve(st, zs[0].extra["star"]) if zs[0].extra.get("star") is not None else None
+        oks = isinstance(star, Z) and isinstance(star.ty, tuple) and star.ty[0] == "list" and not zs[0].args
+        lc = [v for k_, v in st.ghost.items() if str(k_).startswith("lc:") and v.get("effectful")]
+        k = ctx["k"]
+        cl.append(("the zip gets exactly one future per element, in the order of the iterable: entry k is what fn returned for element k", "PC",
+                   z3.And(z3.BoolVal(oks and len(lc) == 1), st.get("$len", Val.id(star.t)) == ctx["n"] if oks else False,
+                          z3.Select(st.get("$at", Val.id(star.t)), k) == lc[0]["elem_fn"](k) if oks and lc else False), ["C15"]))
+        cl.append(("the zipped tuple is converted with `list` (same length and order)", "PC",
+                   ms[0].args[1] == ref(engine.cls_obj_id("list")) if len(ms[0].args) > 1 else z3.BoolVal(False), ["C15"]))
+    return cl
+
+
+def _trav_comp_spec(engine, st, fr, ctx, events):
+    calls = [e for e in events if e.kind == "call" and e.recv is None]
+    x = engine.to_val(st, ctx["x"])
+    ok = len(calls) == 1 and len(calls[0].args) == 1 and not calls[0].kwargs and calls[0].ret is not None
+    return [("fn is called exactly once per element, with that element, and what it returns is the entry at the element's position",
+             z3.And(z3.BoolVal(ok), calls[0].args[0] == x if ok else False, calls[0].ret == ctx["elem_fn"](ctx["i"]) if ok else False))]
+
+
+UNITS.append(Unit("f_zip", "futures.zip.f_zip", ["C15"], _setup_fzip, _post_fzip, cfg=_cfg_fzip))
+UNITS.append(Unit("f_traverse", "futures.sequence.f_traverse", ["C15", "C18"], _setup_trav, _post_trav, cfg=_cfg_trav))
+
+
+def _cfg_seq():
+    cfg = make_cfg(concurrent=False)
+    cfg.contracts[TRAV + ".f_traverse"] = RecordCall(ret_fn=lambda e, s: sym_val(e, s, "future", "traversed"))
+    cfg.contracts["more_executors._impl.metrics.track_future"] = RecordCall(ret_fn=lambda e, s: sym_val(e, s, "future", "tracked"))
+    return cfg
+
+
+def _setup_seq(engine, st):
+    xs = sym_val(engine, st, ("list", "future"), "futures")
+    return [xs], {}, {"xs": xs}
+
+
+def _post_seq(engine, st, ctx, out):
+    from pyvc.symexec import Frame
+    tv = [e for e in st.trace if e.kind == "repo-call" and e.meth.endswith(".f_traverse")]
+    tr = [e for e in st.trace if e.kind == "repo-call" and e.meth.endswith(".track_future")]
+    ok = len(tv) == 1 and len(tr) == 1 and not isinstance(out, Raise) and len(tv[0].args) == 2
+    cl = [("f_sequence(futures) = track(f_traverse(identity, futures))", "PC",
+           z3.And(z3.BoolVal(ok), tv[0].args[1] == ctx["xs"].t if ok else False, tr[0].args[0] == tv[0].ret if ok else False,
+                  engine.to_val(st, out) == tr[0].ret if ok else False), ["C15"])]
+    if ok:
+        cb = engine.resolve(st, Z(tv[0].args[0], "any"))
+        x = sym_val(engine, st, "any", "elem")
+        fr = Frame(None, engine.repo.func("futures.sequence.f_sequence").module, st.new_env(None), None, 0)
+        if isinstance(cb, Closure):
+            for s2, r2, ev2 in simulate_callback(engine, st, fr, cb, x):
+                cl.append(("the traversal function is the identity: each future stands for itself, nothing is called", "PC",
+                           z3.And(z3.BoolVal(not isinstance(r2, Raise) and not ev2), engine.to_val(s2, r2) == x.t if not isinstance(r2, Raise) else False), ["C15"], s2))
+        else:
+            cl.append(("the traversal function is a closure of this call", "PC", z3.BoolVal(False), ["C15"]))
+    return cl
+
+
+UNITS.append(Unit("f_sequence", "futures.sequence.f_sequence", ["C15"], _setup_seq, _post_seq, cfg=_cfg_seq))
